@@ -98,11 +98,11 @@ Definition after_try (r : res (option Z)) (prev : option Z) : option Z :=
 Theorem src_read_decode_eq : forall get objs com mp old subs raw1 raw2 c' s',
   get com 1 = Ok (Some raw1) -> get com 2 = Ok (Some raw2) ->
   read_cfg get objs com mp old subs = Ok (c', s') ->
-  let '(cob, en, rtr, tt, inh, ev, sy, sub) :=
+  let '(cob, en, rtr, ty, inh, ev, sy, sub) :=
     src_read_decode raw1 raw2 0
       (after_try (get com 3) (c_inhibit old)) (after_try (get com 5) (c_event old)) (after_try (get com 6) (c_sync old))
       (c_inhibit old) (c_event old) (c_sync old) false in
-  c_cob c' = Some cob /\ c_enabled c' = en /\ c_rtr c' = rtr /\ c_tt c' = Some tt /\
+  c_cob c' = Some cob /\ c_enabled c' = en /\ c_rtr c' = rtr /\ c_tt c' = Some ty /\
   c_inhibit c' = inh /\ c_event c' = ev /\ c_sync c' = sy /\
   s' = (if sub then subscribe c' subs else subs).
 Proof.
